@@ -1,6 +1,7 @@
 import PewProofs.Export
 import PewProofs.ExportVtk
 import PewProofs.ExportForeign
+import PewProofs.ExportSession
 
 /-! # C16 — property theorems (statements only depend on `PewModel.Export` and the hypothesis
 bundles on the opaque tokens: `Clean` for the number printer/converter (`PewProofs.Export`),
@@ -153,6 +154,154 @@ example : loadFields 2 "1,2\n3\n".toList = none := by decide
 /-- a carriage return in the header starts a line the writer did not prefix: the image grows a row -/
 example : loadText convB 2 (saveText fmtB "a\r1".toList [[true], [false]]) = some ([3, 1], [true, true, false]) := by
   decide
+
+
+/-! ### `load` with its options, and calls one after another -/
+
+/-- **a named delimiter**: on every text whose only delimiter character (of `,` `;` tab) is `d`,
+`load(path, delimiter=d)` returns what the default call returns — the same array, or both raise. -/
+theorem explicit_delimiter_agrees (conv : Str → α) (ndmin : Nat) (d : Char) (hd : IsDelim d) (f : Str)
+    (h : ∀ c ∈ f, IsDelim c → c = d) :
+    loadTextD conv (some d) ndmin f = loadText conv ndmin f := by
+  rw [← loadTextD_none]
+  unfold loadTextD loadFieldsD
+  rw [loaderRows_delim d hd f h]
+
+/-- **what a file is read as, by its source and the delimiter named**: an image written by `save` (any header
+without a carriage return) and read with the default or with `delimiter=","`, and an image another tool
+wrote with a mixture of `,` `;` tab read with the default, or with one delimiter throughout read with
+that delimiter named, load to that image: shape `(rows, columns)`, every value at its place.
+`Src.ok`: the decidable well-formedness of the source (see its definition); `Src.image?`: the cases just listed. -/
+theorem source_loads (fmt : α → Str) (conv : Str → α) (hc : Clean fmt conv) (s : Src α) (delim : Option Char)
+    (img : List (List α)) (hok : s.ok = true) (hi : s.image? delim = some img) :
+    loadTextD conv delim 2 (s.text fmt) = some ([img.length, (img.headD []).length], img.flatten) := by
+  cases s with
+  | saved h im =>
+    simp only [Src.image?] at hi
+    split at hi
+    · rename_i hd
+      injection hi with hi
+      subst hi
+      simp only [Src.ok, Bool.and_eq_true, Bool.not_eq_true'] at hok
+      obtain ⟨h1, h2⟩ := hok
+      have hcr : '\r' ∉ h := by
+        intro hm
+        have : h.contains '\r' = true := by simpa using hm
+        rw [this] at h1
+        exact absurd h1 (by decide)
+      obtain ⟨hne, hpos, hcols⟩ := imgOk_spec im h2
+      have base := text_roundtrip fmt conv hc h hcr im _ hne hpos hcols
+      simp only [Src.text]
+      rcases hd with e | e
+      · subst e
+        rw [loadTextD_none]
+        exact base
+      · subst e
+        have : loadTextD conv (some ',') 2 (saveText fmt h im) = loadTextD conv none 2 (saveText fmt h im) := by
+          unfold loadTextD loadFieldsD
+          rw [loaderRows_saved_comma fmt conv hc h hcr im]
+        rw [this, loadTextD_none]
+        exact base
+    · exact absurd hi (by simp)
+  | delimited seps im =>
+    simp only [Src.ok, Bool.and_eq_true, beq_iff_eq, List.all_eq_true] at hok
+    obtain ⟨⟨⟨hlen, hsd⟩, h2⟩, hw⟩ := hok
+    obtain ⟨hne, hpos, hcols⟩ := imgOk_spec im h2
+    have hs : ∀ ss ∈ seps, ∀ x ∈ ss, IsDelim x := fun ss hss x hx => (isDelimB_iff x).mp (hsd ss hss x hx)
+    have base := (delimiters_agree fmt conv hc seps im _ hlen hs hne hpos hcols).2
+    simp only [Src.text]
+    cases delim with
+    | none =>
+      simp only [Src.image?] at hi
+      injection hi with hi
+      subst hi
+      rw [loadTextD_none]
+      exact base
+    | some d =>
+      simp only [Src.image?] at hi
+      split at hi
+      · rename_i hcond
+        injection hi with hi
+        subst hi
+        simp only [Bool.and_eq_true, List.all_eq_true, beq_iff_eq] at hcond
+        obtain ⟨hd, hall⟩ := hcond
+        rw [explicit_delimiter_agrees conv 2 d ((isDelimB_iff d).mp hd)]
+        · exact base
+        · intro c hcm hdc
+          refine mem_saveWith fmt conv hc d seps im hall ?_ c hcm hdc
+          intro p hp
+          have h1 := hw p.1 (List.of_mem_zip hp).1
+          have h3 := hcols p.2 (List.of_mem_zip hp).2
+          omega
+      · exact absurd hi (by simp)
+  | other t => simp [Src.image?] at hi
+
+/-- **a session has no memory but its files**: the calls run one after another, the file system handed
+from each to the next, return exactly what the specification says — every `load` answered from the last
+`put` at its path among the earlier calls and from its own `delimiter` / `name`, from nothing else. -/
+theorem session_stateless (fmt : α → Str) (conv : Str → α) (cs : List (Call α)) :
+    runSession fmt conv [] cs = sessionSpec fmt conv cs :=
+  runSession_from fmt conv [] cs
+
+theorem lastPut_none (p : Nat) (mid : List (Call α)) (h : ∀ q s, Call.put q s ∈ mid → q ≠ p) : lastPut p mid = none := by
+  induction mid with
+  | nil => rfl
+  | cons c cs ih =>
+    simp only [lastPut]
+    rw [ih (fun q s hm => h q s (by simp [hm]))]
+    cases c with
+    | put q s =>
+      have := h q s (by simp)
+      simp [this]
+    | load q d n => rfl
+
+/-- **every load of a session, whatever was called before**: after any calls `pre`, a file put at `p`
+(saved, or written by another tool), any calls `mid` that put nothing at `p` — loads of this or of other
+files with any delimiter and name, saves of other files — a `load(p, delimiter, name)` for which the
+property names the image (`source_loads`) returns that image, as a view with field `name` when one is given;
+whatever follows (`post`). -/
+theorem session_loads (fmt : α → Str) (conv : Str → α) (hc : Clean fmt conv) (pre mid post : List (Call α))
+    (p : Nat) (s : Src α) (delim : Option Char) (name : Option Str) (img : List (List α))
+    (hmid : ∀ q s', Call.put q s' ∈ mid → q ≠ p) (hok : s.ok = true) (hi : s.image? delim = some img) :
+    (runSession fmt conv [] ((pre ++ Call.put p s :: mid) ++ Call.load p delim name :: post))[(pre ++ Call.put p s :: mid).length]?
+      = some (.loaded { shape := [img.length, (img.headD []).length], data := img.flatten, field := name }) := by
+  rw [session_stateless, sessionSpec, specFrom_get]
+  have hget : ((pre ++ Call.put p s :: mid) ++ Call.load p delim name :: post)[(pre ++ Call.put p s :: mid).length]?
+      = some (Call.load p delim name) := by
+    rw [List.getElem?_append_right (Nat.le_refl _)]
+    simp
+  have htake : ((pre ++ Call.put p s :: mid) ++ Call.load p delim name :: post).take (pre ++ Call.put p s :: mid).length
+      = pre ++ Call.put p s :: mid := List.take_left' rfl
+  rw [hget, htake]
+  simp only [Option.map_some, List.nil_append, replyAt]
+  have hlast : lastPut p (pre ++ Call.put p s :: mid) = some s := by
+    rw [lastPut_append]
+    simp [lastPut, lastPut_none p mid hmid]
+  rw [hlast]
+  simp only [loadReply, source_loads fmt conv hc s delim img hok hi]
+
+/-- non-vacuity: a tab-delimited file read with its delimiter named, then a saved image read by default —
+the history of the seeded change C16-c1 — and a view with a field name -/
+example : runSession fmtB convB []
+      [ .put 0 (.delimited [['\t']] [[true, false]]), .load 0 (some '\t') none,
+        .put 1 (.saved [] [[true, false], [false, true]]), .load 1 none (some ['A']), .load 0 none none ]
+    = [ .done, .loaded ⟨[1, 2], [true, false], none⟩, .done, .loaded ⟨[2, 2], [true, false, false, true], some ['A']⟩,
+        .loaded ⟨[1, 2], [true, false], none⟩ ] := by decide
+
+example : (runSession fmtB convB []
+      (([.load 7 none none] ++ Call.put 1 (.saved "h;1".toList [[true, false], [false, true]]) ::
+        [.put 0 (.delimited [['\t']] [[true, false]]), .load 0 (some '\t') none]) ++ Call.load 1 (some ',') (some ['A']) :: []))[4]?
+    = some (.loaded ⟨[2, 2], [true, false, false, true], some ['A']⟩) :=
+  session_loads fmtB convB clean_fmtB [.load 7 none none] [.put 0 (.delimited [['\t']] [[true, false]]), .load 0 (some '\t') none] []
+    1 (.saved "h;1".toList [[true, false], [false, true]]) (some ',') (some ['A']) [[true, false], [false, true]]
+    (by simp) (by decide) (by decide)
+
+/-- a file read with a delimiter it does not use is outside what the property names: one column of unparsable fields -/
+example : loadFieldsD (some ';') 2 "1,2\n3,4\n".toList = some ([2, 1], ["1,2", "3,4"].map String.toList) := by decide
+example : loadFieldsD (some '\t') 2 " 1\t2 # c\r\n\t\n".toList = some ([2, 2], ["1", "2", "", ""].map String.toList) := by decide
+
+example : loadTextD convB (some ';') 2 "1;0\n0;1\n".toList = loadText convB 2 "1;0\n0;1\n".toList :=
+  explicit_delimiter_agrees convB 2 ';' (Or.inr (Or.inl rfl)) _ (by decide)
 
 end text
 
